@@ -80,6 +80,12 @@ def run_flow_check(pid, tier, own, closed_cases, real_cases, gen=0, gen_kw=None,
         label, inst = item
         exp = fc.expected(inst)
         lrng = random.Random(rng.random())
+        if label.startswith("G") and lrng.random() < 0.35 and exp["tasks"] and exp["mergeinsensitive"]:
+            # resume shape: the outputs of a random subset of tasks are on disk already
+            sub = [t for t in exp["tasks"] if lrng.random() < 0.4 and t["outs"]]
+            if sub:
+                inst = dict(inst); inst["pre"] = sorted(o for t in sub for o in t["outs"])
+                exp = fc.expected(inst)
         cmds = [p["name"] for p in inst["procs"] if p["kind"] in ("cmd", "gofunc")]
         vs = fc.jitter_variants(lrng, nvar, bufs=(inst.get("bufsize", 1), 1, 2, 128), procs=cmds, fixed_ctl=bool(inst.get("ctl")))
         if inst.get("ctl"):       # timing scenarios keep their own buffer size
